@@ -1,15 +1,18 @@
 #!/bin/sh
 # tools/seedrun.sh <patch.diff> <tier> <Cxx> [<Cyy> …]
-# Applies a seeded change to /repo, runs the named checks, and restores /repo straight afterwards
+# Applies a seeded change to /repo (or $VERIF_REPO), runs the named checks, and restores the tree straight afterwards
 # (also on interruption). Prints one line per check:  <Cxx> exit=<n> <VIOLATION line or "-">
 # Never used by a registered check; evidence written during the run is restored from git afterwards.
 set -u
 patch="$1"; tier="$2"; shift 2
 cd "$(dirname "$0")/.."
-if [ -n "$(git -C /repo status --porcelain)" ]; then echo "/repo is not clean"; exit 2; fi
-restore() { git -C /repo checkout -- . ; git -C /repo clean -fdq; git checkout -q -- evidence lean/Gen 2>/dev/null; }
+# VERIF_REPO (default /repo): the tree the change is applied to and the checks read — a scratch copy when the
+# campaign runs beside other work (vp run --with-repo: VERIF_REPO=$VP_RUN_REPO)
+repo="${VERIF_REPO:-/repo}"
+if [ -n "$(git -C "$repo" status --porcelain)" ]; then echo "$repo is not clean"; exit 2; fi
+restore() { git -C "$repo" checkout -- . ; git -C "$repo" clean -fdq; git checkout -q -- evidence lean/Gen 2>/dev/null; }
 trap restore EXIT INT TERM
-if ! git -C /repo apply "$patch"; then echo "patch does not apply"; exit 2; fi
+if ! git -C "$repo" apply "$patch"; then echo "patch does not apply"; exit 2; fi
 for p in "$@"; do
   out=$(./check "$p" --tier "$tier" 2>&1); rc=$?
   v=$(printf '%s\n' "$out" | grep '^VIOLATION' | head -1)
